@@ -172,16 +172,23 @@ CLAIMS = {
             'produces exactly the documented outcome and the stepping loop returns on a terminated process; the outcome never changes afterwards (C01). Tied to '
             'the code by ~2.9k real runs per quick run in which all eight accessors, the listener and cleanup counters and the stepping task are sampled after '
             'every event and callback (kill while paused, inside a step, from a listener, fail, raising late callbacks).',
-            'DESIGN.md section 4 C02', COMMON_NOTE + 'PARTIAL: the return of step_until_terminated() is proved up to "the stepping task itself did not fail" (no exception escapes step() is property C03, proved per hook, not over all schedules).',
+            'DESIGN.md section 4 C02', COMMON_NOTE + 'The return of step_until_terminated() is now closed over every run: Life/LifeEsc.v proves that the stepping task never fails (C02_stepping_task_never_fails, C02_stepping_task_returns_for_sure), for schedules that do not cancel the process future from outside (that interplay is the recorded finding D3b of C04); the remaining exclusions are the model\'s explicit fuel and a step blocked in the program\'s own await of a future nobody completes.',
             'Coq proof: invariant over all runs (compositional Hoare triples in wp form) + symbolic execution of every terminating operation + C01 finality + vm_compute correspondence'),
-    'C03': ('Machine-checked proof (Coq) over M1 with one injected fault, by symbolic execution on EVERY world in which the fault is armed (whatever the occurrence '
+    'C03': ('Machine-checked proof (Coq) over M1 with one injected fault. OVER EVERY RUN (Life/LifeEsc.v; any program, listener scripts with re-entrant control calls, '
+            'scheduled callbacks, ANY fault = any hook name x any occurrence index x any exception, any schedule of any length that does not cancel the process '
+            'future from outside): no exception ever reaches the event loop - no callback or done-callback reports a loop error and the stepping task never fails '
+            '(C03_nothing_reaches_the_loop) - and the process is never left between states: between any two events no transition is under way, the failure bypass '
+            'is not armed, closed => terminated, a live process has a pending future, an armed interrupt action is pending (C03_never_half_transitioned). The proof '
+            'tracks the one-shot fault: an operation called with a legal target fails only by firing it, the second transition (to EXCEPTED, exit phase skipped) '
+            'then cannot fail, and the targets computed by steps ARE legal (invariant tying the program counter of a suspended step to the state label). '
+            'Additionally, by symbolic execution on EVERY world in which the fault is armed (whatever the occurrence '
             'count): for the step function and for each life-cycle hook of the transitions RUNNING->RUNNING, ->WAITING, ->FINISHED (incl. on_finished, on_terminated, '
             'on_close) and of a kill between steps, the enclosing operation returns normally, the process is EXCEPTED with exactly that exception, its future raises '
             'it, it is closed and stepping has ended; a raising call_soon callback fails the process the same way and nothing reaches the loop; an exception raised '
             'by a listener never leaves fire_event (for arbitrary re-entrant listeners); a fault during construction propagates to the caller. Tied to the code by a '
             'complete fault enumeration: every hook x every occurrence x 6 scenarios, failing steps (also with a cancelled future), callbacks, listeners.',
-            'DESIGN.md section 4 C03', COMMON_NOTE + 'PARTIAL: faults are raised before the hook calls its super() implementation; pause/play hook faults are checked by the oracle only; per operation from quiet worlds, not over all schedules.',
-            'Coq proof: symbolic execution (wp calculus + computation) of the model with an armed fault, hook by hook + vm_compute correspondence'),
+            'DESIGN.md section 4 C03', COMMON_NOTE + 'PARTIAL: faults are raised before the hook calls its super() implementation; pause/play hook faults are checked by the oracle only; "ends EXCEPTED with exactly that exception" is proved per operation from quiet worlds (and on the four runs of the non-vacuity example), the all-run theorems are the containment half (nothing reaches the loop, never half-transitioned) and exclude an outside cancellation of the future (finding D3b).',
+            'Coq proof: invariant over all runs with a one-shot fault (Hoare triples in wp form, result-sensitive at the transition level) + symbolic execution (wp calculus + computation) of the model with an armed fault, hook by hook + vm_compute correspondence'),
 }
 
 NOT_YET = 'check under construction in this build session (model/theorems not committed yet); see DESIGN.md section 4'
